@@ -38,8 +38,9 @@ type JTripDesc struct {
 	ID           string // NYCT-shaped: six digits, then a suffix starting with '_'
 	RouteID      string
 	Dir          int
-	StartDate    int64 // unix seconds of the service day's midnight (UTC)
+	StartDate    int64 // unix seconds of the service day's local midnight
 	StartTimeSec int64
+	Zone         string `json:",omitempty"` // presentation zone of the start date ("" = UTC); the start instant is StartDate + StartTime elapsed
 }
 
 type History struct {
@@ -58,7 +59,11 @@ func (h *History) buildRealtime(f *JFeed) *gtfs.Realtime {
 	r := &gtfs.Realtime{CreatedAt: jTime(f.CreatedAt)}
 	for _, u := range f.Updates {
 		d := h.Pool[u.Trip]
-		t := gtfs.Trip{ID: gtfs.TripID{ID: d.ID, RouteID: d.RouteID, DirectionID: gtfs.DirectionID(d.Dir), HasStartDate: true, StartDate: jTime(d.StartDate),
+		startDate := jTime(d.StartDate)
+		if d.Zone != "" {
+			startDate = startDate.In(c20Loc(d.Zone))
+		}
+		t := gtfs.Trip{ID: gtfs.TripID{ID: d.ID, RouteID: d.RouteID, DirectionID: gtfs.DirectionID(d.Dir), HasStartDate: true, StartDate: startDate,
 			HasStartTime: true, StartTime: time.Duration(d.StartTimeSec) * time.Second}, IsEntityInMessage: true}
 		for _, s := range u.Stops {
 			id := s.StopID
@@ -192,6 +197,13 @@ func genHistory(t *rapid.T, o jGenOpts) (*History, map[string]int) {
 	for i := 0; i < nT; i++ {
 		d := JTripDesc{RouteID: rapid.SampledFrom([]string{"A", "1", "GS", ""}).Draw(t, "route"), Dir: rapid.IntRange(0, 2).Draw(t, "dir"),
 			StartDate: day + 86400*int64(rapid.IntRange(0, 1).Draw(t, "day")), StartTimeSec: int64(rapid.SampledFrom([]int{0, 3600, 3601, 86399, 90000}).Draw(t, "startTime"))}
+		if rapid.IntRange(0, 3).Draw(t, "dstDay") == 0 {
+			// service days on which New York changes its offset, start times after the 02:00 change:
+			// midnight + elapsed start time differs from the wall-clock reading by an hour
+			d.Zone = "America/New_York"
+			d.StartDate = rapid.SampledFrom([]int64{1710046800, 1730606400, 1710133200}).Draw(t, "dstMidnight") // 2024-03-10, 2024-11-03, 2024-03-11 00:00 local
+			d.StartTimeSec = int64(rapid.SampledFrom([]int{3600, 7200, 10800, 14400, 86399}).Draw(t, "dstStartTime"))
+		}
 		suffix := rapid.SampledFrom(suffixes).Draw(t, "suffix")
 		d.ID = fmt.Sprintf("%06d%s", rapid.SampledFrom([]int{0, 6000, 6001, 143950}).Draw(t, "origin"), suffix)
 		if !o.Collisions {
@@ -221,7 +233,8 @@ func genHistory(t *rapid.T, o jGenOpts) (*History, map[string]int) {
 	presentPrev := make([]bool, nT)  // reported in the previous feed
 	everAssigned := make([]bool, nT) // seen with a vehicle
 	for fi := 0; fi < nF; fi++ {
-		tcur += int64(rapid.IntRange(1, 120).Draw(t, "dt"))
+		// feeds may carry the same timestamp (two snapshots within one second): dt = 0 is part of the domain
+		tcur += int64(rapid.SampledFrom([]int{0, 1, 1, 5, 30, 120}).Draw(t, "dt"))
 		f := JFeed{CreatedAt: tcur}
 		order := seqInts(nT)
 		if nT > 1 {
